@@ -154,35 +154,67 @@ def check(repo, rep):
         rep.ob('sample slicing rejects %s with TypeError' % label, l.outcome == 'raise' and exc_name(l) == 'TypeError', W(l.node) if l.node is not None else W(gi), 'AudioRegion.__getitem__:reject[%s]' % label,
                'outcome %s %s' % (l.outcome, exc_name(l) if l.outcome == 'raise' else ''), sample=dict(index=repr(idx), outcome='TypeError'))
     # ================================================================ len
-    ll = cx.leaves('core', 'AudioRegion.__len__')
     fields = self_field_exprs(cx, 'core', 'AudioRegion')
-    for l in ll:
-        if l.outcome == 'return':
-            okl, why = True, None
-            npts = 0
-            try:
-                for rate_ in (8, 100, 8000, 44100):
-                    for sw_ in (1, 2, 4):
-                        for ch_ in (1, 2, 3):
-                            for n_ in list(range(0, 40)) + [999, 1000, 1001, 1002, 4409, 4411]:
-                                try:
-                                    got = value(l.value, evaluator({LEN: n_ * sw_ * ch_, ('attr', ('self',), 'sample_width'): sw_, ('attr', ('self',), 'channels'): ch_, ('attr', ('self',), '_sample_size_all_channels'): sw_ * ch_,
-                                                                    ('attr', ('self',), 'sampling_rate'): rate_}), fields)
-                                except DecidedRaise as exc:
-                                    got = 'an exception (%s)' % exc
-                                npts += 1
-                                if okl and (got != n_ or isinstance(got, float)):
-                                    okl, why = False, 'for %d bytes, width %d, %d channel(s), %d Hz it gives %r, not %d' % (n_ * sw_ * ch_, sw_, ch_, rate_, got, n_)
-                rep.ob('len(region) = len(data) // (sample_width * channels)', okl, W(l.node), 'AudioRegion.__len__', 'returns %s: %s' % (show(l.value)[:100], why), sample=dict(len=show(l.value)[:80], grid_points=npts))
-            except Undecided as exc:
-                rep.unknown('AudioRegion.__len__: %s' % exc)
+    lm = cx.model.find_method('core', rc, '__len__')
+    # (sample count, rate) pairs where the float round trip  (n / rate) / (1 / rate)  lands off n: a length computed from the
+    # duration instead of the bytes goes wrong exactly there
+    edge = []
+    for rate_e in (8000, 44100, 48000, 22050, 11025, 16000):
+        for n_e in range(1, 6000):
+            q_e = (n_e / rate_e) / (1 / rate_e)
+            if q_e != n_e and len([1 for e_ in edge if e_[1] == rate_e and (e_[2] > e_[0]) == (q_e > n_e)]) < 2:
+                edge.append((n_e, rate_e, q_e))
+    if lm is None:
+        rep.unknown('AudioRegion.__len__ not found')
+    else:
+        okl, why, npts, bad_l = True, None, 0, None
+        try:
+            lv_len = deep_leaves(cx, lm[0], rc, lm[2])
+            pts = [(n_, rate_) for rate_ in (8, 100, 8000, 44100) for n_ in list(range(0, 40)) + [999, 1000, 1001, 1002, 4409, 4411]] + [(e_[0], e_[1]) for e_ in edge]
+            for n_, rate_ in pts:
+                for sw_ in (1, 2, 4):
+                    for ch_ in (1, 2, 3):
+                        a_ = {LEN: n_ * sw_ * ch_, ('attr', ('self',), 'sample_width'): sw_, ('attr', ('self',), 'channels'): ch_, ('attr', ('self',), '_sample_size_all_channels'): sw_ * ch_,
+                              ('attr', ('self',), 'sampling_rate'): rate_}
+                        hit = [l for l in lv_len if holds(l, evaluator(a_, fields=fields))]
+                        if len(hit) != 1:
+                            raise Undecided('%d paths apply to a region of %d samples' % (len(hit), n_))
+                        l = hit[0]
+                        if l.outcome == 'raise':
+                            got = 'an exception (%s)' % exc_name(l)
+                        else:
+                            try:
+                                got = value(l.value, evaluator(a_), fields)
+                            except DecidedRaise as exc:
+                                got = 'an exception (%s)' % exc
+                        npts += 1
+                        if okl and (got != n_ or isinstance(got, float)):
+                            okl, why, bad_l = False, 'for %d bytes, width %d, %d channel(s), %d Hz it gives %r, not %d' % (n_ * sw_ * ch_, sw_, ch_, rate_, got, n_), l
+            rep.ob('len(region) = len(data) // (sample_width * channels)', okl, W(bad_l.node) if bad_l is not None and bad_l.node is not None else W(lm[2]), 'AudioRegion.__len__',
+                   'returns %s: %s' % (show(bad_l.value)[:100] if bad_l is not None and bad_l.value else None, why), sample=dict(len='__len__ evaluated through its paths', grid_points=npts))
+        except Undecided as exc:
+            rep.unknown('AudioRegion.__len__: %s' % exc)
     # ================================================================ seconds view
     vc = cx.cls('core', '_SecondsView')
     vf = cx.model.find_method('core', vc, '__getitem__')
     rf = region_field(cx, '_SecondsView')
     sv = []
     if rf is None:
-        rep.unknown('_SecondsView: the field holding the region was not identified')
+        # a view that keeps only a weak reference to its region stops working once the region is collected
+        # (region[:].sec[a:b] holds no other reference): reported; anything else is not recognised
+        weak = None
+        vinit = cx.model.find_method('core', vc, '__init__')
+        vparams = [a.arg for a in vinit[2].args.args][1:] if vinit else []
+        for f_, ds_ in cx.field_defs('core', '_SecondsView').items():
+            for d_ in ds_:
+                v_ = d_['value']
+                if d_['method'] == '__init__' and v_[0] == 'call' and term_name(v_[1]) in ('weakref.proxy', 'weakref.ref', 'weakref.WeakMethod') and vparams and v_[2][:1] == (('p', vparams[0]),):
+                    weak = (f_, d_)
+        if weak is not None:
+            rep.ob('a time view keeps its region alive (it holds the region itself, not a weak reference)', False, W(weak[1]['node']), '_SecondsView.__init__:weak-region',
+                   'self.%s = %s' % (weak[0], show(weak[1]['value'])[:60]))
+        else:
+            rep.unknown('_SecondsView: the field holding the region was not identified')
     else:
         REG = ('attr', ('self',), rf)
         try:
